@@ -10,11 +10,17 @@ theorem holds for every behaviour of the bisection, including "deadline reached"
 `text1 d` = the equal and deleted segments concatenated, `text2 d` = the equal and inserted ones.
 `Recon d a b` says `text1 d = a ∧ text2 d = b`; `SameTexts d d'` says both are the same for `d'`.
 
+The re-balancing step (`_realign_placeholders`, `Proofs/Realign.lean`, `Proofs/Closed.lean`): for every table a history
+of `do_tree` calls on one maker builds, every segment list and every initial stack, whenever the function returns
+(its `assert` does not fire) the equal + delete segments and the equal + insert segments of the output spell the same
+strings as those of the input once opening and closing placeholders are removed.
+
 NOT proved (and false of the vendored engine in line mode - known finding E1): the absence of
 empty segments.  That half of C16 is decided per run by the oracle on the real engine.
 -/
 import XmlDiffModel.Proofs.Dmp
 import XmlDiffModel.Proofs.XmlFormat
+import XmlDiffModel.Proofs.Closed
 
 namespace XmlDiffModel
 open Dmp
@@ -56,6 +62,44 @@ theorem C16_join_keeps_both_texts (ps : List (Op × Str)) (hrep : ∀ p ∈ ps, 
     accText (joinDI ps) = accText (asSegs ps) ∧
     rejText (joinDI ps) = rejText (asSegs ps) :=
   joinDI_texts ps hrep
+
+/-- `_realign_placeholders` keeps both texts apart from the opening / closing placeholders it is meant to move, on any
+table that is one-to-one (`TableOK`), in which every opening entry records the placeholder of a closing entry
+(`Closed`) and whose placeholders are valid code points: for every selection `keep` of operations - `fun o => o != .ins`
+is the first text, `fun o => o != .del` the second - the selected segments spell the same string before and after, up
+to the characters of `isOC st` (placeholders of opening or closing entries). -/
+theorem C16_realign_keeps_texts (st : PhSt) (hOK : TableOK st) (hC : Closed st) (hhi : st.counter < 0x110000)
+    (keep : Op → Bool) (segs : List Seg) (out : List (Op × Str)) (h : realign st segs [] [] = .ok out) :
+    Realign.strip (isOC st) (Realign.proj keep out) = Realign.strip (isOC st) (Realign.projS keep segs) := by
+  obtain ⟨h1, h2⟩ := isOC_hyps st hOK hC hhi
+  have := Realign.realign_spec st (isOC st) h1 h2 keep segs [] [] out (fun x hx => by cases hx) h
+  simpa [Realign.proj] using this
+
+/-- The same for the tables of the property's quantifier: one maker (`PlaceholderMaker.__init__`) that has processed
+any list of documents with `do_tree`. -/
+theorem C16_realign_after_do_tree (tt ft : List Str) (docs : List Tree)
+    (hhi : (doTrees docs (phInit tt ft)).counter < 0x110000)
+    (keep : Op → Bool) (segs : List Seg) (out : List (Op × Str))
+    (h : realign (doTrees docs (phInit tt ft)) segs [] [] = .ok out) :
+    Realign.strip (isOC (doTrees docs (phInit tt ft))) (Realign.proj keep out) =
+      Realign.strip (isOC (doTrees docs (phInit tt ft))) (Realign.projS keep segs) := by
+  obtain ⟨a, b⟩ := phInit_ok tt ft
+  exact C16_realign_keeps_texts _ (doTrees_extends docs _ a).1 (doTrees_closed docs _ b) hhi keep segs out h
+
+/-- Non-vacuity of the re-balancing theorem: a closing placeholder that the text diff moved in front of another one
+(`<b>x<i>y</b></i>`-like order) is re-balanced - the inner element is closed first, the stray closing placeholders
+are dropped -, and both projections agree up to opening / closing placeholders. -/
+example :
+    let e (t : String) (ks : List Tree) (txt : Option String) : Tree :=
+      .node 0 ⟨.elem, t.toList, [], txt.map String.toList, none⟩ ks
+    let doc := e "p" [e "b" [e "i" [] (some "y")] (some "x")] none
+    let st := doTrees [doc] (phInit ["p".toList] ["b".toList, "i".toList])
+    let ph (k : Nat) : Char := phChar (phStart + k)
+    -- table: b close / open = +7 / +8, i close / open = +9 / +10
+    (realign st [⟨.eq, [ph 8, 'x', ph 10, 'y'], []⟩, ⟨.ins, [ph 7], []⟩, ⟨.eq, [ph 9], []⟩, ⟨.del, [ph 7], []⟩] [] []).toOption.map
+        (fun o => o.map (fun p => (p.1, p.2.map Char.toNat))) =
+      some [(.eq, [0xE008]), (.eq, [0x78]), (.eq, [0xE00A]), (.eq, [0x79]), (.eq, [0xE009]), (.ins, [0xE007])] := by
+  decide +kernel
 
 /-- Non-vacuity: a pair on which half-match, the merge passes and the overlap extraction of the semantic clean-up act
 (the bisect oracle answers "deadline reached"). -/
